@@ -676,10 +676,8 @@ func c15bRun(r *core.Run) {
 	var closeTook time.Duration
 	closed := false
 
-	oldTransport := http.DefaultClient.Transport
 	oldCfg := shared.CurrentConfig
 	defer func() {
-		http.DefaultClient.Transport = oldTransport
 		shared.CurrentConfig = oldCfg
 		simhook.SetExec(nil)
 		simhook.SetProcEnv(nil)
@@ -721,7 +719,7 @@ func c15bRun(r *core.Run) {
 			pw.addRef(1)
 			return &c15bListener{pw: pw}, nil
 		})
-		http.DefaultClient.Transport = pw
+		defer useWorkerTransport(pw)()
 		w.TokenPlan = func(tk *world.SimToken, op, key string, n int) world.TokOutcome {
 			if pw.quiet || len(pw.armed) == 0 {
 				return world.TokOutcome{}
